@@ -42,6 +42,34 @@ static Matrix filled(long r, long c)
 static void use(const Matrix& M) { sink = M.Rows() + M.Columns() + (M.Rows() > 0 && M.Columns() > 0 ? M[0][0] : 0.0); }
 static void use(const Vector& v) { sink = v.Size() + (v.Size() > 0 ? v[0] : 0.0); }
 
+// one request on an Interpolation object: loc x | ev x | der x n | int a b | min a b | max a b | glob
+static void interp_call(Interpolation& I, vh::Reader& r)
+{
+	std::string w = r.word();
+	if(w == "loc")
+		sink = I.Locate(r.num());
+	else if(w == "ev")
+		sink = I(r.num());
+	else if(w == "der")
+	{
+		double x = r.num();
+		long n	 = r.integer();
+		sink	 = I.Derivative(x, (unsigned int) n);
+	}
+	else if(w == "int" || w == "min" || w == "max")
+	{
+		double a = r.num(), b = r.num();
+		sink = (w == "int") ? I.Integrate(a, b) : (w == "min" ? I.Local_Minimum(a, b) : I.Local_Maximum(a, b));
+	}
+	else if(w == "glob")
+		sink = I.Global_Minimum() + I.Global_Maximum();
+	else
+	{
+		fprintf(stderr, "harness: unknown interpolation request\n");
+		_exit(77);
+	}
+}
+
 static void handler(vh::Reader& r, vh::Out& o)
 {
 	std::string op = r.word();
@@ -445,6 +473,250 @@ static void handler(vh::Reader& r, vh::Out& o)
 		std::vector<double> l = r.list();
 		double t			  = r.num();
 		sink				  = Locate_Closest_Location(l, t);
+	}
+	else if(op == "icalls" || op == "icalls_t")
+	{
+		// one Interpolation object built with unit arguments, then several requests on it, in order
+		std::unique_ptr<Interpolation> I;
+		if(op == "icalls")
+		{
+			std::vector<double> xs = r.list();
+			long nf				   = r.integer();
+			double xd = r.num(), fd = r.num();
+			I.reset(new Interpolation(xs, ramp(nf), xd, fd));
+		}
+		else
+		{
+			std::vector<std::vector<double>> tb = r.table();
+			double xd = r.num(), fd = r.num();
+			I.reset(new Interpolation(tb, xd, fd));
+		}
+		std::vector<double> dom = I->domain;
+		long n					= r.integer();
+		for(long k = 0; k < n; k++)
+			interp_call(*I, r);
+		o.w("OK");
+		o.f(dom.size() > 0 ? dom[0] : std::nan(""));
+		o.f(dom.size() > 1 ? dom[1] : std::nan(""));
+		return;
+	}
+	else if(op == "i2calls" || op == "i2calls_t")
+	{
+		std::unique_ptr<Interpolation_2D> I;
+		if(op == "i2calls")
+		{
+			std::vector<double> xs = r.list(), ys = r.list();
+			std::vector<long> lens = r.ilist();
+			double xd = r.num(), yd = r.num(), fd = r.num();
+			I.reset(new Interpolation_2D(xs, ys, shaped(lens), xd, yd, fd));
+		}
+		else
+		{
+			std::vector<std::vector<double>> tb = r.table();
+			double xd = r.num(), yd = r.num(), fd = r.num();
+			I.reset(new Interpolation_2D(tb, xd, yd, fd));
+		}
+		std::vector<std::vector<double>> dom = I->domain;
+		long n								 = r.integer();
+		for(long k = 0; k < n; k++)
+		{
+			double x = r.num(), y = r.num();
+			sink = I->Interpolate(x, y);
+		}
+		o.w("OK");
+		for(int a = 0; a < 2; a++)
+			for(int b = 0; b < 2; b++)
+				o.f((int) dom.size() > a && (int) dom[a].size() > b ? dom[a][b] : std::nan(""));
+		return;
+	}
+	else if(op == "fact_seq")
+	{
+		long n = r.integer();
+		for(long k = 0; k < n; k++)
+		{
+			std::string w = r.word();
+			if(w == "f")
+				sink = Factorial((unsigned int) r.integer());
+			else
+			{
+				long a = r.integer(), b = r.integer();
+				sink = Binomial_Coefficient((int) a, (int) b);
+			}
+		}
+	}
+	else if(op == "vec_hist")
+	{
+		long d = r.integer(), n = r.integer();
+		Vector v((unsigned int) d, 1.0);
+		for(long k = 0; k < n; k++)
+		{
+			std::string w = r.word();
+			if(w == "resize")
+				v.Resize((unsigned int) r.integer());
+			else if(w == "assign")
+				v.Assign((unsigned int) r.integer(), 2.0);
+			else if(w == "copy")
+			{
+				Vector c(v);
+				v = c;
+			}
+			else if(w == "set")
+				v = Vector(ramp(r.integer()));
+			else if(w == "addeq")
+				v += Vector(ramp(r.integer()));
+			else
+			{
+				o.w("HARNESSERR unknown_vec_op");
+				return;
+			}
+		}
+		long size	  = v.Size();
+		std::string w = r.word();
+		if(w == "at")
+		{
+			unsigned int i = (unsigned int) r.integer();
+			v[i]		   = 2.0;
+			sink		   = v[i];
+		}
+		else if(w == "dot")
+			sink = v.Dot(Vector(ramp(r.integer())));
+		else if(w == "add")
+			use(v + Vector(ramp(r.integer())));
+		else if(w == "sub")
+			use(v - Vector(ramp(r.integer())));
+		else if(w == "addeq")
+		{
+			v += Vector(ramp(r.integer()));
+			use(v);
+		}
+		else if(w == "cross")
+			use(v.Cross(Vector(ramp(r.integer()))));
+		else if(w != "none")
+		{
+			o.w("HARNESSERR unknown_vec_probe");
+			return;
+		}
+		// every component the object advertises is there
+		for(long i = 0; i < size && w == "none"; i++)
+			sink = v[(unsigned int) i];
+		o.w("OK");
+		o.i(size);
+		return;
+	}
+	else if(op == "mat_hist")
+	{
+		long rr = r.integer(), cc = r.integer(), n = r.integer();
+		Matrix M = filled(rr, cc);
+		for(long k = 0; k < n; k++)
+		{
+			std::string w = r.word();
+			if(w == "resize")
+			{
+				long a = r.integer(), b = r.integer();
+				M.Resize((int) a, (int) b);
+			}
+			else if(w == "assign")
+			{
+				long a = r.integer(), b = r.integer();
+				M.Assign((int) a, (int) b, 2.0);
+			}
+			else if(w == "delrow")
+				M.Delete_Row((unsigned int) r.integer());
+			else if(w == "delcol")
+				M.Delete_Column((unsigned int) r.integer());
+			else if(w == "copy")
+			{
+				Matrix C(M);
+				M = C;
+			}
+			else if(w == "set")
+			{
+				long a = r.integer(), b = r.integer();
+				M = filled(a, b);
+			}
+			else if(w == "pluseq")
+			{
+				long a = r.integer(), b = r.integer();
+				M += filled(a, b);
+			}
+			else if(w == "sum")
+			{
+				long a = r.integer(), b = r.integer();
+				M = M + filled(a, b);
+			}
+			else if(w == "prod")
+			{
+				long a = r.integer(), b = r.integer();
+				M = M * filled(a, b);
+			}
+			else if(w == "transp")
+				M = M.Transpose();
+			else
+			{
+				o.w("HARNESSERR unknown_mat_op");
+				return;
+			}
+		}
+		// what the object advertises after the history, and whether its rows really have Columns() entries
+		long R = M.Rows(), C = M.Columns(), bad = 0;
+		for(long i = 0; i < R; i++)
+			if((long) M[(unsigned int) i].size() != C)
+				bad++;
+		std::string w = r.word();
+		if(w == "at")
+		{
+			std::vector<double>& row = M[(unsigned int) r.integer()];
+			sink					 = row.size();
+		}
+		else if(w == "row")
+			use(Vector((unsigned int) C, 1.0) + M.Return_Row((unsigned int) r.integer()));
+		else if(w == "col")
+			use(Vector((unsigned int) R, 1.0) + M.Return_Column((unsigned int) r.integer()));
+		else if(w == "plus" || w == "minus" || w == "pluseq" || w == "mul" || w == "lmul")
+		{
+			long a = r.integer(), b = r.integer();
+			Matrix B = filled(a, b);
+			if(w == "plus")
+				use(M.Plus(B));
+			else if(w == "minus")
+				use(M.Minus(B));
+			else if(w == "pluseq")
+			{
+				M += B;
+				use(M);
+			}
+			else if(w == "mul")
+				use(M * B);
+			else
+				use(B * M);
+		}
+		else if(w == "matvec")
+			use(M * Vector(ramp(r.integer())));
+		else if(w == "vecmat")
+			use(Vector(ramp(r.integer())) * M);
+		else if(w == "trace")
+			sink = M.Trace();
+		else if(w == "det")
+			sink = M.Determinant();
+		else if(w == "transpose")
+			use(M.Transpose());
+		else if(w == "sub")
+		{
+			long i = r.integer(), j = r.integer();
+			use(M.Sub_Matrix((int) i, (int) j));
+		}
+		else if(w == "eq")
+			sink = (M == filled(R, C)) ? 1.0 : 0.0;
+		else if(w != "none")
+		{
+			o.w("HARNESSERR unknown_mat_probe");
+			return;
+		}
+		o.w("OK");
+		o.i(R);
+		o.i(C);
+		o.i(bad);
+		return;
 	}
 	else
 	{
